@@ -36,6 +36,15 @@ CLAIMED.update({
          "Trusts: the expected-sequence interpreter in sim/tsim/src/span_sim.rs; handles are used by one thread at a time (no intra-operation preemption for this property).", "DESIGN.md 5 C03"),
 })
 
+CLAIMED.update({
+ "C07": ("stack-sim", "deterministic simulation: seeded configurations (layer trees with global and per-layer filters assembled at run time) x seeded emission histories through the real macros (interest caches, MAX_LEVEL, per-thread FILTERING state in play), one or two stacks on one or two threads; stack delivery reference model (A5) as oracle",
+         "Seeded exploration of stacks built from plain layers, global filter layers and per-layer-filtered subtrees (nested, Vec/Option/Box/and_then) with level/Targets/EnvFilter/static-closure/context-closure/and-or-not filters, and histories of spans (create/enter/exit/record/drop), events, enabled! probes and emissions aborted by a panicking field expression; each leaf must receive exactly what its own path filters and the global filters accept, lifecycle notifications go to exactly the recipients of the span, and lookup_current/event_scope inside callbacks show exactly the spans the leaf received. Known-finding triggers (F3, F13, F14) run in separate finding-probe configurations. Sampling, not proof.",
+         "Trusts: the filter evaluator and delivery model in sim/tsim/src/stack.rs and stack_sim.rs (restricted grammar: target tables by longest string prefix, static closures by site mask, context closures on the visible current span); histories are total orders.", "DESIGN.md 5 C07"),
+ "C09": ("wrap-sim", "deterministic simulation: seeded configurations (1-5 recording layers, nested pass-through wrappers, collector wrappers, two base collectors, optional veto) x seeded span/event histories; absolute exactly-once/ordering oracle per operation window",
+         "Seeded exploration of wrapper nestings {Box, Some, one-element Vec, reload, and_then with Identity/None/empty-Vec neighbours}, transparent extra groups (None, empty Vec, Identity), the collector wrapped in Box/Arc/Box<Box>, over the Registry or an id-changing collector; per operation every layer must log each lifecycle notification (new span, record, follows-from, event, enter, exit, close, id change) exactly once, inner layers first, with identical arguments; dispatcher registration exactly once per layer; query callbacks (register_callsite, enabled, event_enabled) the same number of times for every layer unless a layer vetoes, in which case nobody is notified. Sampling, not proof.",
+         "Trusts: the per-operation expectation table in sim/tsim/src/wrap_sim.rs; query-callback ORDER is not demanded (outer-first by documented design); no schedule dimension (history only).", "DESIGN.md 5 C09"),
+})
+
 NOT_BUILT = {
 }
 
